@@ -151,3 +151,108 @@ pub fn c17_jbrd_app_marker_size_queries_total() {
         }
     }
 }
+
+const AC_LEN: usize = 18;
+
+/// ITU-T T.81 F.1.2 sequential entropy coding of one block (DC difference + AC run/size coding),
+/// with the fixed tables of the harness: DC category c has the 4-bit code c, AC symbols EOB, ZRL and
+/// (run r, size 1) have the 5-bit codes 0, 1 and 2 + r. Returns the bit string left-aligned in 128 bits and its length.
+fn spec_encode_block(prev_dc: i16, dc: i16, ac: &[i16; AC_LEN]) -> (u128, usize) {
+    let mut acc: u128 = 0;
+    let mut n: usize = 0;
+    let mut put = |v: u32, len: usize| {
+        if len > 0 {
+            acc |= ((v as u128) & ((1u128 << len) - 1)) << (128 - n - len);
+            n += len;
+        }
+    };
+    let size_and_bits = |v: i32| -> (usize, u32) {
+        // F.1.2.1.1: SSSS = number of bits of |v|; negative values are coded as v - 1 (low bits)
+        let a = v.unsigned_abs();
+        let ssss = (32 - a.leading_zeros()) as usize;
+        let bits = if v < 0 { (v - 1) as u32 } else { v as u32 };
+        (ssss, bits)
+    };
+    let diff = dc as i32 - prev_dc as i32;
+    let (ssss, bits) = size_and_bits(diff);
+    put(ssss as u32, 4);
+    put(bits, ssss);
+    let mut r: u32 = 0;
+    let mut k = 0;
+    while k < AC_LEN {
+        if ac[k] == 0 {
+            r += 1;
+        } else {
+            while r > 15 {
+                put(1, 5); // ZRL
+                r -= 16;
+            }
+            let (ssss, bits) = size_and_bits(ac[k] as i32);
+            // ssss == 1 for the coefficients of this harness (+-1)
+            put(2 + r, 5);
+            put(bits, ssss);
+            r = 0;
+        }
+        k += 1;
+    }
+    if r > 0 {
+        put(0, 5); // EOB
+    }
+    (acc, n)
+}
+
+fn block_case(p1: Option<(usize, i16)>, p2: Option<(usize, i16)>) {
+    let prev_dc = kani::any::<i16>();
+    let dc = kani::any::<i16>();
+    kani::assume(prev_dc > -1024 && prev_dc < 1024 && dc > -1024 && dc < 1024);
+    let mut ac = [0i16; AC_LEN];
+    // non-zero coefficients (+-1, sign symbolic) at the given positions
+    if let Some((p, v)) = p1 {
+        ac[p] = v;
+    }
+    if let Some((p, v)) = p2 {
+        ac[p] = v;
+    }
+    let mut dc_counts = [0u8; 17];
+    dc_counts[4] = 13;
+    let dc_values: Vec<u8> = vec![0, 1, 2, 3, 4, 5, 6, 7, 8, 9, 10, 11, 255];
+    let mut ac_counts = [0u8; 17];
+    ac_counts[5] = 19; // 18 symbols + sentinel
+    let ac_values: Vec<u8> = vec![
+        0x00, 0xf0, 0x01, 0x11, 0x21, 0x31, 0x41, 0x51, 0x61, 0x71, 0x81, 0x91, 0xa1, 0xb1, 0xc1, 0xd1, 0xe1, 0xf1, 0xff,
+    ];
+    let out = jv::encode_sequential_block(dc_counts, dc_values, ac_counts, ac_values, prev_dc, dc, &ac[..], None).unwrap();
+    let (mut acc, mut n) = spec_encode_block(prev_dc, dc, &ac);
+    let pad = (8 - n % 8) % 8;
+    if pad > 0 {
+        acc |= ((1u128 << pad) - 1) << (128 - n - pad);
+        n += pad;
+    }
+    let mut want = [0u8; 34];
+    let wn = spec_pack(acc, n, &mut want);
+    assert!(out.len() == wn);
+    let i: usize = kani::any();
+    kani::assume(i < wn);
+    assert!(out[i] == want[i]);
+    core::mem::forget(out);
+}
+
+// @prop C17
+// @tier experimental
+// @unit jxl_jbr::reconstruct::scan::{process_sequential,ScanState::{update_dc_pred,flush_bit_writer}} jxl_jbr::huffman::HuffmanCode::build jxl_jbr::bit_writer::BitWriter
+// @sym DC value and predictor (|v| < 1024); the AC part is concrete per case (symbolic AC positions or signs make the slice scan of process_sequential intractable): the layout of the 18-coefficient block is enumerated: all zero; one coefficient at position 0, 15, 16 or 17 (zero runs 0, 15, exactly 16, 17); two coefficients at (0,17) and (1,17) (runs of 16 and 15 in the middle)
+// @bound one block of 18 AC coefficients of magnitude <= 1, 7 layouts, one table pair (DC category c -> 4-bit code c; AC symbols EOB, ZRL, (run r, size 1) -> 5-bit codes); sequential (baseline) scans only
+// @oblig the bytes written are the T.81 F.1.2 coding of the block: DC difference category and bits, (run,size) symbols with a ZRL for every 16 zeros before a non-zero coefficient, EOB iff the block ends with zeros, padded with one bits and 0xFF-stuffed
+// @outside progressive scans, restart intervals, extra_zero_runs fix-ups, larger coefficients and denser blocks
+#[kani::proof]
+#[kani::unwind(21)]
+pub fn c17_sequential_block_matches_t81() {
+    block_case(None, None);
+    block_case(Some((0, 1)), None);
+    block_case(Some((15, -1)), None);
+    block_case(Some((16, 1)), None);
+    block_case(Some((17, -1)), None);
+    block_case(Some((0, -1)), Some((17, 1)));
+    block_case(Some((1, 1)), Some((17, 1)));
+    kani::cover!(true, "all layouts executed");
+}
